@@ -7,6 +7,8 @@ from vlib import Sym
 from docs import UA, NS_NODESET
 
 T0 = datetime.datetime(2024, 1, 2, 3, 4, 5, tzinfo=datetime.timezone.utc)
+import re
+NOWTXT = re.compile(r'PublicationDate="\d{4}-\d\d-\d\dT\d\d:\d\d:\d\d\.\d{6}\+00:00"')
 NODE_TAGS = set(docs.CLASSES)
 
 def graph_tables(G):
@@ -107,7 +109,7 @@ def make_graph(rng, quick, hostile=False):
     ds = nsgen.serialise(g, rng, value_xml=parseprops.value_xml)
     return g, ds
 
-REG_REQS = []; REG_META = []
+REG_REQS = []; REG_META = []; TXT_REQS = []; TXT_META = []
 def correspondence(ctx, prop, rng, work, reqs, meta, G, tables, g, ci, inc_choices=(True, False)):
     outs = {}
     for uri in g.uris:
@@ -118,6 +120,7 @@ def correspondence(ctx, prop, rng, work, reqs, meta, G, tables, g, ci, inc_choic
             out = impl_write(G2, uri, inc, newver)
             reqs.append(write_request(tables, uri, inc, newver, "out.xml")); meta.append((ci, uri, inc, out))
             REG_REQS.append([Sym("write_regular")] + write_request(tables, uri, inc, newver, "out.xml")[1:])
+            TXT_REQS.append([Sym("write_text")] + write_request(tables, uri, inc, newver, "out.xml")[1:]); TXT_META.append((ci, uri, inc, out))
             REG_META.append((ci, uri, inc, write_causes(G, tables, uri, out, inc)))
             outs[(uri, inc)] = out
     return outs
@@ -314,6 +317,31 @@ def run(ctx, prop):
         if reg and neg: ctx.disagree("regularity", dict(case=ci, uri=uri, inc=inc), "harness attributes %r" % sorted(causes), "regular_b = true")
     ctx.notes["cases_in_domain_of_C06_node_elements"] = "%d of %d" % (nreg, len(REG_REQS))
     del REG_REQS[:]; del REG_META[:]
+    # the written TEXT, character for character (coq/M_WriteText.v); only the time stamps that the code takes from now() are masked
+    tans = vlib.run_model(TXT_REQS, shards=8)
+    same_text = 0; first_diff = None
+    for (ci, uri, inc, out), ta in zip(TXT_META, tans):
+        ta = vlib.untext(ta)
+        if out[0] != "ok" or ta[0] != "ok": continue          # outcomes are compared by the document correspondence above
+        it = canon_text_order(NOWTXT.sub('PublicationDate="NOW"', out[1])); mt = canon_text_order(ta[1])
+        if it == mt: same_text += 1
+        else:
+            k = next((i for i, (a, b) in enumerate(zip(it, mt)) if a != b), min(len(it), len(mt)))
+            ctx.disagree("text", dict(case=ci, uri=uri, inc=inc), it[max(0, k - 60):k + 60], mt[max(0, k - 60):k + 60])
+    ctx.notes["written_text_identical"] = "%d documents" % same_text
+    # the decision procedure of theorem C07_written_text_wellformed on every case: inside its domain the implementation's text must be
+    # accepted by an independent XML reader (the theorem says the model's - identical - text is well-formed)
+    cans = vlib.run_model([[Sym("text_clean")] + r[1:] for r in TXT_REQS], shards=8)
+    nclean = 0
+    for (ci, uri, inc, out), ca in zip(TXT_META, cans):
+        if vlib.untext(ca) != "true": continue
+        nclean += 1
+        if out[0] != "ok": ctx.disagree("text-domain", dict(case=ci, uri=uri, inc=inc), out[:2], "text_clean = true"); continue
+        try: ET.fromstring(out[1].encode("utf-8"))
+        except ET.XMLSyntaxError as e:
+            ctx.fail("C07/ill-formed-inside-theorem-domain", dict(kind="write", files=None, uri=uri, inc=inc), str(e)[:150])
+    ctx.notes["cases_in_domain_of_C07_written_text_wellformed"] = "%d of %d" % (nclean, len(TXT_REQS))
+    del TXT_REQS[:]; del TXT_META[:]
     uns = 0
     for (ci, uri, inc, out), a in zip(meta, ans):
         mo = dec_doc(a)
@@ -329,6 +357,21 @@ def run(ctx, prop):
     ctx.notes["unsupported_by_model"] = uns
     pick = [i for i in range(len(reqs)) if len(vlib.to_sx(reqs[i])) < 9000][:6]
     ctx.crosscheck = vlib.coq_crosscheck([reqs[i] for i in pick], [ans[i] for i in pick], prop.lower())
+
+REFRE = re.compile(r"<Reference .*?</Reference>", re.S)
+def canon_text_order(text):
+    """the order of node elements and of the Reference elements inside a node comes out of pandas joins and is not modelled: both texts
+    are compared with the node blocks and each node's Reference elements sorted; every other character must be identical"""
+    head, sep, rest = text.partition("<Aliases></Aliases>\n")
+    if not sep or not rest.endswith("\n</UANodeSet>"): return text
+    body = rest[:-len("\n</UANodeSet>")]
+    blocks = re.split(r"\n(?=<UA(?:Object|Variable|Method|View|ObjectType|VariableType|DataType|ReferenceType) NodeId=)", body) if body else []
+    def fix(b):
+        refs = REFRE.findall(b)
+        if len(refs) < 2: return b
+        i = b.index(refs[0]); j = b.rindex(refs[-1]) + len(refs[-1])
+        return b[:i] + "".join(sorted(refs)) + b[j:]
+    return head + sep + "\n".join(sorted(fix(b) for b in blocks)) + "\n</UANodeSet>"
 
 def write_causes(G, tables, uri, out, inc=True):
     """recorded defects that apply to writing this namespace of this graph"""
